@@ -8,7 +8,7 @@ NOTE = ('Trusted: Coq 8.16.1 kernel; the hand-written Gallina model is tied to /
 CLAIMS = {
  'C18': dict(
     text='Theorems (all segmentations, all socket interleavings, all accepted IRC messages) about executable models of '
-         'splitLines/Line._on_read and irc Message._check_args/__str__/parsemsg; the independent stream description used by C18_lines_exact is total and unique (C18_stream_decomposes, C18_decomposition_unique), giving byte conservation for every cut of every stream (C18_lines_conserve); closed under the global context. '
+         'splitLines/Line._on_read and irc Message._check_args/__str__/parsemsg; the independent stream description used by C18_lines_exact is total and unique (C18_stream_decomposes, C18_decomposition_unique), giving byte conservation for every cut of every stream (C18_lines_conserve, per socket C18_server_conserve); any number of accepted IRC messages under any cut arrive as one line each, in order (C18_message_stream); closed under the global context. '
          'The assurance is the weaker of the proof and the differential tie.',
     design='§6 C18',
     note=NOTE + 'IRC round trip is proved for canonical messages only (known finding C18-irc-roundtrip).',
